@@ -446,12 +446,18 @@ def gen_entry(rng, ascii_only):
     if rng.random() < 0.12:
         e['obsolete'] = True
     r = rng.random()
-    if r < 0.15:
-        e['prev_msgid'] = 'old'
-    elif r < 0.2:
-        e['prev_msgctxt'] = 'oldctx'
-    elif r < 0.25 and 'msgid_plural' in e:
-        e['prev_msgid_plural'] = 'olds'
+    # previous-msgid annotations: each of the three fields absent, EMPTY (present: `#| msgid ""`) or non-empty
+    if r < 0.12:
+        e['prev_msgid'] = rng.choice(['old', 'old', ''])
+    elif r < 0.17:
+        e['prev_msgctxt'] = rng.choice(['oldctx', ''])
+    elif r < 0.22 and 'msgid_plural' in e:
+        e['prev_msgid_plural'] = rng.choice(['olds', ''])
+    elif r < 0.27:
+        e['prev_msgctxt'] = rng.choice(['oldctx', ''])
+        e['prev_msgid'] = rng.choice(['old', ''])
+        if 'msgid_plural' in e:
+            e['prev_msgid_plural'] = rng.choice(['olds', ''])
     lines, trig = rng.choice(COMMENTS)
     e['extracted'] = list(lines)
     e['_trigger'] = trig
